@@ -111,7 +111,8 @@ Verdict(e) ==
     [] op = "exp" -> LET v == ExpOK(Arg(e.a), cfg.precision, e.r)
                      \* behaviours printed by the mechanism model MC_ExpMech (instantiated with T digits) carry the modelled routine's result
                      IN IF v = OK /\ "mech" \in DOMAIN e /\ e.T = cfg.precision /\ ~ValEq(DecOf(e.r.d), DecOf(e.mech))
-                        THEN Info("result-differs-from-the-modelled-routine") ELSE v
+                        THEN Info("result-differs-from-the-modelled-routine")
+                        ELSE IF v = OK /\ "exactp" \in DOMAIN e THEN ExpDigitsOK(Arg(e.a), cfg.precision, e.r) ELSE v
     [] op = "sqrt" -> SqrtOK(IF e.form \in {"default", "ctx", "dref_ctx"} THEN "some" ELSE IF e.form = "dref_abs" THEN "abs" ELSE "copysign",
                              Arg(e.a), PrecOf(e), ModeOf(e), e.r)
     [] op = "cbrt" -> CbrtOK(Arg(e.a), PrecOf(e), ModeOf(e), e.r)
